@@ -181,3 +181,22 @@ func F14(prop string) {
 		ev.ReportKnown(prop, "F14")
 	}
 }
+
+// F18Reproduces: nil and empty setup / `with` inside a non-empty matrix give different signed payloads.
+func F18Reproduces() bool {
+	mk := func(setup pipeline.MatrixSetup, with pipeline.MatrixAdjustmentWith) string {
+		m := &pipeline.Matrix{Setup: setup, Adjustments: pipeline.MatrixAdjustments{{With: with, Skip: true}}}
+		b, err := json.Marshal(m)
+		if err != nil {
+			return "error: " + err.Error()
+		}
+		return string(b)
+	}
+	return mk(nil, nil) != mk(pipeline.MatrixSetup{}, nil) || mk(nil, nil) != mk(nil, pipeline.MatrixAdjustmentWith{})
+}
+
+func F18(prop string) {
+	if ev.Known("F18") && F18Reproduces() {
+		ev.ReportKnown(prop, "F18")
+	}
+}
